@@ -22,7 +22,7 @@ import (
 
 // Config is one way of reaching the front end and the compiler.
 type Config struct {
-	Kind string `json:"kind"` // bare | bare-body | script | srcmod-body | srcmod-main | fileimp-body | fileimp-main
+	Kind string `json:"kind"`            // bare | bare-body | script | srcmod-body | srcmod-main | fileimp-body | fileimp-main
 	Mods bool   `json:"mods,omitempty"`  // builtin module map configured (script kinds)
 	NVar int    `json:"nvar,omitempty"`  // number of pre-declared variables
 	Bltn bool   `json:"bltn,omitempty"`  // some variables are named like builtin functions
@@ -98,20 +98,38 @@ func bodyMain(c Config) []byte {
 	return []byte(importLines("pre", c.Pre) + "m := import(\"" + moduleName + "\")\nout := m\n" + importLines("post", c.Post))
 }
 
-var reAt = regexp.MustCompile(`^(.+):(\d+)(?::(\d+))?$`)
-
-// textPosProblem looks at the position an error TEXT carries ("…\n\tat file:line:col"): "" when usable.
+// textPosProblem looks at the position an error TEXT carries ("…\n\tat file:line:col"): "" when it names a
+// file and a line (SourceFilePos.String prints "-" for the zero position, "line:col" without a file name and
+// the bare file name when the line is 0).
 func textPosProblem(text string) string {
 	i := strings.LastIndex(text, "\n\tat ")
 	if i < 0 {
 		return "the text has no `at` part"
 	}
 	at := text[i+5:]
-	m := reAt.FindStringSubmatch(at)
-	if m == nil {
-		return fmt.Sprintf("the text ends in `at %s`: no file name and line", at)
+	parts := strings.Split(at, ":")
+	isNum := func(s string) bool {
+		if s == "" {
+			return false
+		}
+		for _, ch := range s {
+			if ch < '0' || ch > '9' {
+				return false
+			}
+		}
+		return true
 	}
-	if m[2] == "0" {
+	nums := 0
+	for nums < 2 && nums < len(parts) && isNum(parts[len(parts)-1-nums]) {
+		nums++
+	}
+	file := strings.Join(parts[:len(parts)-nums], ":")
+	switch {
+	case nums == 0:
+		return fmt.Sprintf("the text ends in `at %s`: no line", at)
+	case file == "":
+		return fmt.Sprintf("the text ends in `at %s`: no file name", at)
+	case parts[len(parts)-nums] == "0":
 		return fmt.Sprintf("the text ends in `at %s`: line 0", at)
 	}
 	return ""
@@ -266,6 +284,11 @@ func guard(isolated bool, timeout time.Duration, f func()) (panicVal string, hun
 	}
 }
 
+// sameFile: the reported file name is the input called want (file imports are reported by path).
+func sameFile(got, want string) bool {
+	return got == want || filepath.Base(got) == want+".tengo"
+}
+
 // Eval runs every stage the configuration asks for. feats are behavioural features of the run (used by the
 // searcher as a poor man's coverage signal).
 func (e *Env) Eval(src []byte, c Config, isolated bool) (finds []Finding, feats []string) {
@@ -276,7 +299,39 @@ func (e *Env) Eval(src []byte, c Config, isolated bool) (finds []Finding, feats 
 	add := func(stage, kind, sig, obs string) {
 		finds = append(finds, Finding{stage, kind, stage + ":" + kind + ":" + sig, obs})
 	}
-	files := map[string][]byte{mainName: src}
+
+	// the inputs of this configuration: main source, source modules, files
+	mainSrc := src
+	srcMods := extraModules(c.Src)
+	if srcMods == nil {
+		srcMods = map[string][]byte{}
+	}
+	switch c.Kind {
+	case "bare-body", "srcmod-body":
+		srcMods[moduleName] = src
+		mainSrc = bodyMain(c)
+	case "fileimp-body":
+		mainSrc = bodyMain(c)
+	case "srcmod-main":
+		srcMods[moduleName], srcMods[helperName] = []byte(helperSrc), []byte(helperSrc)
+	}
+	files := map[string][]byte{mainName: mainSrc}
+	var modNames []string
+	for n, b := range srcMods {
+		files[n] = b
+		modNames = append(modNames, n)
+	}
+	sort.Strings(modNames)
+	moduleMap := func(base *tengo.ModuleMap) *tengo.ModuleMap {
+		mm := tengo.NewModuleMap()
+		if base != nil {
+			mm = base.Copy()
+		}
+		for _, n := range modNames {
+			mm.AddSourceModule(n, srcMods[n])
+		}
+		return mm
+	}
 
 	checkErr := func(stage string, err error) {
 		// the error text itself must be obtainable
@@ -306,10 +361,19 @@ func (e *Env) Eval(src []byte, c Config, isolated bool) (finds []Finding, feats 
 				add(stage, "panic", "compile-error-position:"+msgClass(pv), pv)
 				return
 			}
-			if !p.IsValid() {
-				add(stage, "badpos", "compile-error-without-position", fmt.Sprintf("%q has no position", ce.Err.Error()))
+			// a compile error must SAY where it is: a position without file and line (`at -`) names no place
+			// inside the offending input
+			if tp := textPosProblem(text); tp != "" || !p.IsValid() || p.Filename == "" {
+				if tp == "" {
+					tp = fmt.Sprintf("FileSet.Position(Node.Pos()) = {file %q, line %d, column %d}", p.Filename, p.Line, p.Column)
+				}
+				add(stage, "badpos", "error-position-missing", fmt.Sprintf("%s; error text %q (node %T, Pos %d)", tp, text, ce.Node, int(ce.Node.Pos())))
 			} else if pr := posProblem(p, files); pr != "" {
 				add(stage, "badpos", "compile-error-position", fmt.Sprintf("%s: %q reported at %s (offset %d)", pr, ce.Err.Error(), p, p.Offset))
+			} else if want := c.Want; want != "" {
+				if got := fmt.Sprintf("%d", p.Offset); !strings.HasSuffix(want, "@"+got) || !sameFile(p.Filename, strings.TrimSuffix(want, "@"+got)) {
+					add(stage, "badpos", "error-position-not-at-erroneous-token", fmt.Sprintf("%q reported at %s (offset %d), the erroneous token is at %s", ce.Err.Error(), p, p.Offset, want))
+				}
 			}
 		default:
 			feats = append(feats, stage+":err:"+msgClass(text))
@@ -317,19 +381,19 @@ func (e *Env) Eval(src []byte, c Config, isolated bool) (finds []Finding, feats 
 	}
 
 	switch c.Kind {
-	case "bare":
+	case "bare", "bare-body":
 		var file *parser.File
 		var fs *parser.SourceFileSet
 		var sf *parser.SourceFile
 		var err error
 		pv, hung := guard(isolated, timeout, func() {
 			fs = parser.NewFileSet()
-			sf = fs.AddFile(mainName, -1, len(src))
+			sf = fs.AddFile(mainName, -1, len(mainSrc))
 			var tw io.Writer
 			if c.Trc {
 				tw = discard{}
 			}
-			file, err = parser.NewParser(sf, src, tw).ParseFile()
+			file, err = parser.NewParser(sf, mainSrc, tw).ParseFile()
 		})
 		if hung {
 			add("parse", "hang", "no-return", "ParseFile did not return in "+timeout.String())
@@ -358,8 +422,13 @@ func (e *Env) Eval(src []byte, c Config, isolated bool) (finds []Finding, feats 
 				st.Define(n)
 			}
 			var mm tengo.ModuleGetter // untyped nil when no modules are configured
-			if c.Mods {
+			switch {
+			case c.Mods && len(modNames) == 0:
 				mm = e.mods
+			case c.Mods:
+				mm = moduleMap(e.mods)
+			case len(modNames) > 0:
+				mm = moduleMap(nil)
 			}
 			var ctw io.Writer
 			if c.Trc {
@@ -394,16 +463,6 @@ func (e *Env) Eval(src []byte, c Config, isolated bool) (finds []Finding, feats 
 	}
 
 	// Script kinds
-	mainSrc := src
-	var modSrc []byte
-	switch c.Kind {
-	case "srcmod-body", "fileimp-body":
-		modSrc = src
-		mainSrc = []byte("m := import(\"" + moduleName + "\")\nout := m\n")
-	case "srcmod-main", "fileimp-main":
-		modSrc = []byte(helperSrc)
-	}
-	files = map[string][]byte{mainName: mainSrc}
 	var compiled *tengo.Compiled
 	var err error
 	pv, hung := guard(isolated, timeout, func() {
@@ -411,26 +470,19 @@ func (e *Env) Eval(src []byte, c Config, isolated bool) (finds []Finding, feats 
 		var mm *tengo.ModuleMap
 		switch {
 		case c.Run:
-			mm = e.safe.Copy()
+			mm = moduleMap(e.safe)
 		case c.Mods:
-			mm = e.mods.Copy()
+			mm = moduleMap(e.mods)
 		default:
-			mm = tengo.NewModuleMap()
+			mm = moduleMap(nil)
 		}
 		switch c.Kind {
-		case "srcmod-body":
-			mm.AddSourceModule(moduleName, modSrc)
-			files[moduleName] = modSrc
-		case "srcmod-main":
-			mm.AddSourceModule(moduleName, modSrc)
-			mm.AddSourceModule(helperName, modSrc)
-			files[moduleName], files[helperName] = modSrc, modSrc
 		case "fileimp-body", "fileimp-main":
 			if e.Dir != "" {
 				for _, n := range []string{moduleName, helperName} {
-					body := modSrc
-					if n == helperName {
-						body = []byte(helperSrc)
+					body := []byte(helperSrc)
+					if n == moduleName && c.Kind == "fileimp-body" {
+						body = src
 					}
 					path := filepath.Join(e.Dir, n+".tengo")
 					_ = os.WriteFile(path, body, 0o600)
